@@ -143,6 +143,15 @@ def stepLine (st : DState) (line : String) : DState × String :=
     | some n, some fifo, some off =>
       ({ d := { nodes := n, fifo := fifo, leader := fun r => (off + r) % n }, nodes := [], miss := st.miss }, "ok")
     | _, _, _ => (st, "bad-op")
+  | ["qf", a] =>
+    match a.toNat? with
+    | some n =>
+      let d : Def := { nodes := n, fifo := 0, leader := fun _ => 0 }
+      let o := s!"Q {d.quorum},{d.faulty}"
+      match obs with
+      | some ob => (st, if ob == o then "ok" else "MISMATCH model=" ++ o)
+      | none => (st, o)
+    | none => (st, "bad-op")
   | ["start", a] =>
     match a.toNat? with
     | some p =>
